@@ -97,7 +97,7 @@ const BAD_SEQS: &[&[u8]] = &[
 /// One hostile document. `explicit work` of every shape is bounded (<= 5e4 element x iteration).
 pub fn hostile_doc(rng: &mut Rng, env: &WorkerEnv) -> (String, Vec<u8>) {
     let d = *rng.pick(DEPTHS);
-    match rng.below(35) {
+    match rng.below(37) {
         0 => (
             "expr-paren-depth".into(),
             format!("<svg><rect wh=\"{{{{{}}}}}\"/></svg>", nest("(", ")", d, "1")).into_bytes(),
@@ -409,6 +409,25 @@ pub fn hostile_doc(rng: &mut Rng, env: &WorkerEnv) -> (String, Vec<u8>) {
             }
             s.push_str("</svg>");
             (if trailing == 3 { "nested-unresolvable-var" } else { "nested-unresolvable" }.into(), s.into_bytes())
+        }
+        32 => {
+            // degenerate connector geometry: coincident endpoints, touching or identical
+            // shapes, zero-size and non-finite shapes, every edge type
+            let et = *rng.pick(&["", " edge-type=\"h\"", " edge-type=\"v\"", " edge-type=\"corner\"", " corner-offset=\"0\"", " corner-offset=\"50%\""]);
+            let el = *rng.pick(&["line", "polyline"]);
+            let s = match rng.below(10) {
+                0 => format!("<svg><rect id=\"a\" xy=\"0 0\" wh=\"10\"/><rect id=\"b\" xy=\"10 0\" wh=\"10\"/><{el} start=\"#a@r\" end=\"#b@l\"{et}/></svg>"),
+                1 => format!("<svg><{el} start=\"5 5\" end=\"5 5\"{et}/></svg>"),
+                2 => format!("<svg><rect id=\"a\" xy=\"3 3\" wh=\"0\"/><{el} start=\"#a\" end=\"#a\"{et}/></svg>"),
+                3 => format!("<svg><rect id=\"a\" wh=\"10\"/><{el} start=\"#a@tl\" end=\"#a@tl\"{et}/><{el} start=\"#a\" end=\"#a\"{et}/></svg>"),
+                4 => format!("<svg><rect id=\"a\" wh=\"NaN\"/><rect id=\"b\" xy=\"20 0\" wh=\"5\"/><{el} start=\"#a\" end=\"#b\"{et}/></svg>"),
+                5 => format!("<svg><rect id=\"a\" x=\"-1e39\" width=\"inf\" height=\"1\"/><circle id=\"b\" cxy=\"5 5\" r=\"{{{{1e30*1e30 - 1e30*1e30}}}}\"/><{el} start=\"#a\" end=\"#b\"{et}/></svg>"),
+                6 => format!("<svg><rect id=\"a\" wh=\"10\"/><rect id=\"b\" wh=\"10\"/><{el} start=\"#a\" end=\"#b\"{et}/></svg>"),
+                7 => format!("<svg><point id=\"a\" xy=\"1 1\"/><point id=\"b\" xy=\"1 1\"/><{el} start=\"#a\" end=\"#b\"{et}/><{el} start=\"#a@t:50%\" end=\"#b@b:-5\"{et}/></svg>"),
+                8 => format!("<svg><rect id=\"a\" xy=\"0 0\" wh=\"10 0\"/><rect id=\"b\" xy=\"0 0\" wh=\"0 10\"/><{el} start=\"#a@b\" end=\"#b@r\"{et} text=\"t\"/></svg>"),
+                _ => format!("<svg><circle id=\"a\" cxy=\"0 0\" r=\"0\"/><ellipse id=\"b\" cxy=\"0 0\" rxy=\"0 5\"/><{el} start=\"#a@r\" end=\"#b@l\"{et} class=\"d-arrow\"/></svg>"),
+            };
+            ("connector-degenerate".into(), s.into_bytes())
         }
         28 => {
             let (dd, why) = docgen::failing_doc(rng);
